@@ -291,9 +291,19 @@ func checkMain(args []string) int {
 	// units that could not be generated
 	for _, ue := range uerrs {
 		payload := map[string]interface{}{"property": id, "unit": ue.Unit, "reason": "the verification unit could not be generated from the current source: " + ue.Err}
+		usfx := " no-failing-input-found"
+		// a unit that cannot be generated proves nothing either way; a replay on the real code can still find a failing input
+		if rout := genericReplay(ue.Unit + "#unit"); rout != nil {
+			payload["replay"] = rout
+			if rout.Reproduced {
+				usfx = ""
+				payload["failing_input"] = rout.Input
+				payload["observed_on_real_code"] = rout.Observed
+			}
+		}
 		path := writeReplay("unit-"+ue.Unit, payload)
 		nObl++
-		violations = append(violations, fmt.Sprintf("VIOLATION property=%s replay=%s unit=%s no-failing-input-found", id, path, ue.Unit))
+		violations = append(violations, fmt.Sprintf("VIOLATION property=%s replay=%s unit=%s%s", id, path, ue.Unit, usfx))
 	}
 	// locked obligations that were not regenerated
 	if !writeLock && os.Getenv("GOVC_FILTER") == "" {
